@@ -389,6 +389,11 @@ def match_finding(prop, case, verdict, findings):
             continue
         if "why_regex" in m and not re.search(m["why_regex"], verdict.get("why", ""), re.S):
             continue
+        if "env_regex" in m:
+            # the switches the case ran under (C02: "config"; others: "env"), as sorted JSON
+            envd = (case.get("config") if case and case.get("config") is not None else (case or {}).get("env")) or {}
+            if not re.search(m["env_regex"], json.dumps(envd, sort_keys=True)):
+                continue
         if not m:
             continue
         return f
